@@ -146,12 +146,15 @@ Record variant := {
   block_mark_early : bool;             (* MarkBlock before the proposer check *)
   sync_span : N;                       (* CheckSlotSpan(..., span) of the two sync validators *)
   agg_lmd_checks : bool;               (* aggregate: block-seen + target-ancestor checks present *)
-  exact_target : bool                  (* attestation/aggregate: target root must be the checkpoint block *)
+  exact_target : bool;                 (* attestation/aggregate: target root must be the checkpoint block *)
+  sync_bits_as_bitlist : bool          (* SyncCommitteeSubnetBits.OnesCount discounts a (non-existent) delimiter bit *)
 }.
 Definition fixed : variant :=
-  {| agg_outer_sig_prefix := None; block_mark_early := false; sync_span := 0; agg_lmd_checks := true; exact_target := true |}.
+  {| agg_outer_sig_prefix := None; block_mark_early := false; sync_span := 0; agg_lmd_checks := true; exact_target := true;
+     sync_bits_as_bitlist := false |}.
 Definition orig : variant :=
-  {| agg_outer_sig_prefix := Some 2%nat; block_mark_early := true; sync_span := 1; agg_lmd_checks := false; exact_target := false |}.
+  {| agg_outer_sig_prefix := Some 2%nat; block_mark_early := true; sync_span := 1; agg_lmd_checks := false; exact_target := false;
+     sync_bits_as_bitlist := true |}.
 
 (* ---------- helpers ---------- *)
 Fixpoint be_bytes (n : nat) (x : N) : bytes :=
@@ -184,6 +187,18 @@ Fixpoint firstN {A} (n : N) (l : list A) : list A :=
 Inductive step A := Stop (r : result) | Go (a : A).
 Arguments Stop {A} r.
 Arguments Go {A} a.
+
+(* bitfields.BitlistOnesCount applied to a bit VECTOR: the highest set bit of the last byte is taken for the
+   delimiter of a bitlist and not counted *)
+Definition last_byte_nonzero (bits : list bool) : bool :=
+  match bits with
+  | [] => false
+  | _ => existsb (fun x => x) (skipN (8 * ((lenN bits - 1) / 8)) bits)
+  end.
+Definition ones_count_bitlist_style (bits : list bool) : N :=
+  count_true bits - (if last_byte_nonzero bits then 1 else 0).
+Definition subnet_bits_ones_count (vr : variant) (bits : list bool) : N :=
+  if sync_bits_as_bitlist vr then ones_count_bitlist_style bits else count_true bits.
 
 Section WithBackend.
   Variable b : backend.
@@ -768,7 +783,7 @@ Section WithBackend.
     let ct := cap_contribution m in
     if negb (span_ok (c_slot ct) (sync_span vr)) then (IGNORE, []) else
     if SYNC_COMMITTEE_SUBNET_COUNT <=? c_sub ct then (REJECT, []) else
-    if count_true (c_bits ct) =? 0 then (REJECT, []) else
+    if subnet_bits_ones_count vr (c_bits ct) =? 0 then (REJECT, []) else
     if negb (is_sync_aggregator (cap_selection m)) then (REJECT, []) else
     match by_block_slot b (c_bbr ct) (c_slot ct) with
     | None => (IGNORE, [])
